@@ -53,6 +53,11 @@ func H_C15_gate(v *zzverif.T) {
 		if i < n && (nilmask>>uint(i))&1 == 1 {
 			continue
 		}
+		if v.Has("symfrom") && i < v.CInt("symfrom") {
+			// long lists: the leading tensors are float32, only the trailing ones range over all element types
+			pool[i] = zzverif.NewTensor([]float32{1}, []int{1})
+			continue
+		}
 		pool[i] = v.DtypeTensor(fmt.Sprintf("in%d", i))
 	}
 	var inputs []tensor.Tensor
